@@ -14,7 +14,7 @@
    by specificity over injected sheet ++ document sheets), `x_style` the declarations of its `style`
    attribute.  The `font` shorthand is not modelled (generators never emit it). *)
 From Coq Require Import String.
-From RV Require Import Model.Base Gen.SvgTables.
+From RV Require Import Model.Base Gen.SvgTables Gen.Units.
 
 Record attr := { a_name : AId; a_value : string; a_imp : bool }.
 
@@ -281,19 +281,19 @@ Definition initial_entry_ok (a : AId) : bool := opt_string_eqb (inherit_default 
 (* ---- font-size resolution (units.rs: resolve_font_size), for the `inherit` findings -------------
    The chain lists the specified font-size of each element from the outermost to the element itself. *)
 Local Open Scope Q_scope.
-Inductive absunit := UIn | UCm | UMm | UPt | UPc.
-Inductive fsval := FsPx (n : Q) | FsAbs (u : absunit) (n : Q) | FsEm (n : Q) | FsEx (n : Q) | FsPct (n : Q).
+(* a specified font-size: a number with a unit of Gen/Units.v *)
+Definition fsval := (lunit * Q)%type.
 Definition fs_step (dpi parent : Q) (v : fsval) : Q :=
-  match v with
-  | FsPx n => n
-  | FsAbs UIn n => fs_In n dpi | FsAbs UCm n => fs_Cm n dpi | FsAbs UMm n => fs_Mm n dpi
-  | FsAbs UPt n => fs_Pt n dpi | FsAbs UPc n => fs_Pc n dpi
-  | FsEm n => fs_Em n parent
-  | FsEx n => fs_Ex n parent
-  | FsPct n => fs_Percent n parent
+  let n := snd v in
+  match fst v with
+  | UNone | UPx => fs_Px n dpi
+  | UIn => fs_In n dpi | UCm => fs_Cm n dpi | UMm => fs_Mm n dpi | UPt => fs_Pt n dpi | UPc => fs_Pc n dpi
+  | UEm => fs_Em n parent
+  | UEx => fs_Ex n parent
+  | UPercent => fs_Percent n parent
   end.
 Definition font_size (dpi base : Q) (chain : list (option fsval)) : Q :=
   fold_left (fun fs o => match o with Some v => fs_step dpi fs v | None => fs end) chain base.
 (* KnownClass: the specified value depends on the context it is resolved in *)
 Definition fs_relative (v : fsval) : bool :=
-  match v with FsEm _ | FsEx _ | FsPct _ => true | _ => false end.
+  match fst v with UEm | UEx | UPercent => true | _ => false end.
